@@ -28,7 +28,7 @@ RULE = ('OutGen routines: 1-2 !$loki outline regions (named / default names, in/
         'the transformation created at least one new routine, the text changed and both programs ran on all inputs; '
         'distinct = hash of sources + mode.')
 CASES = {'quick': 240, 'thorough': 3600}
-MIN_NONTRIVIAL = {'quick': 120, 'thorough': 2000}
+MIN_NONTRIVIAL = {'quick': 100, 'thorough': 1500}
 ANCHORS = ['loki/transformations/extract/outline.py', 'loki/transformations/extract/internal.py',
            'loki/transformations/extract/__init__.py']
 REQUIRED_REACH = ['outline_region', 'outline_pragma_regions', 'extract_internal_procedures', 'extract_internal_procedure',
